@@ -73,13 +73,19 @@ impl ScProp {
                 _ => Dm::Rfsm,
             },
             Variant::C08 => {
-                if std::env::var("VERIF_EXPERIMENT_ECMA").is_ok() {
+                if rng.chance(1, 5) {
                     Dm::Ecma
                 } else {
                     Dm::Rfsm
                 }
             }
-            _ => Dm::Rfsm,
+            _ => {
+                if rng.chance(1, 8) {
+                    Dm::Ecma
+                } else {
+                    Dm::Rfsm
+                }
+            }
         };
         let mut p = Profile::structural(dm);
         p.max_states = if tier == Tier::Quick { rng.range(4, 10) as usize } else { rng.range(4, 14) as usize };
@@ -336,6 +342,26 @@ impl Property for ScProp {
             knobs: Knobs { snapshots: self.v == Variant::C01 || rng.chance(2, 3), ..Default::default() },
             notes,
         }
+    }
+
+    /// Document shrinking: drop transitions, entry/exit blocks, single content items and whole sub-states;
+    /// a candidate is only offered if it is still a conformant document for the reference.
+    fn shrink_docs(&self, sc: &Scenario) -> Vec<Scenario> {
+        let doc = match sc.docs.first().and_then(|d| d.model.as_ref()) {
+            Some(d) => d,
+            None => return vec![],
+        };
+        let mut out = Vec::new();
+        for cand in shrink_doc_candidates(doc) {
+            if crate::refsm::Model::new(&cand).validate().is_err() {
+                continue;
+            }
+            let mut c = sc.clone();
+            c.docs[0].xml = crate::gen::render(&cand);
+            c.docs[0].model = Some(cand);
+            out.push(c);
+        }
+        out
     }
 
     fn check(&self, v: &RunView, probes: &mut Probes) -> Verdict {
@@ -709,4 +735,139 @@ fn history_probe(doc: &Doc, expected: &[Obs]) -> (bool, bool) {
         }
     }
     (reentered, default_taken)
+}
+
+
+// ---------------------------------------------------------------------------------------------
+// document shrinking
+
+fn node_paths(n: &crate::gen::Node, cur: &mut Vec<usize>, out: &mut Vec<Vec<usize>>) {
+    out.push(cur.clone());
+    for (i, c) in n.children.iter().enumerate() {
+        cur.push(i);
+        node_paths(c, cur, out);
+        cur.pop();
+    }
+}
+
+fn node_at<'a>(n: &'a mut crate::gen::Node, path: &[usize]) -> &'a mut crate::gen::Node {
+    let mut cur = n;
+    for i in path {
+        cur = &mut cur.children[*i];
+    }
+    cur
+}
+
+fn subtree_ids(n: &crate::gen::Node, out: &mut Vec<String>) {
+    out.push(n.id.clone());
+    for c in &n.children {
+        subtree_ids(c, out);
+    }
+}
+
+/// remove every reference to the given state ids (targets, initial attributes)
+fn purge_refs(n: &mut crate::gen::Node, gone: &[String]) {
+    use crate::gen::Initial;
+    n.trans.retain(|t| !t.targets.iter().any(|x| gone.contains(x)));
+    match &n.initial {
+        Initial::Attr(t) if t.iter().any(|x| gone.contains(x)) => n.initial = Initial::Default,
+        Initial::Elem { targets, .. } if targets.iter().any(|x| gone.contains(x)) => n.initial = Initial::Default,
+        _ => {}
+    }
+    for c in n.children.iter_mut() {
+        purge_refs(c, gone);
+    }
+}
+
+pub fn shrink_doc_candidates(doc: &crate::gen::Doc) -> Vec<crate::gen::Doc> {
+    use crate::gen::{Exec, Initial, Kind};
+    let mut out = Vec::new();
+    let mut paths = Vec::new();
+    node_paths(&doc.root, &mut Vec::new(), &mut paths);
+    for p in &paths {
+        // sub-states (largest reduction first)
+        if !p.is_empty() {
+            let mut d = doc.clone();
+            let (last, parent_path) = p.split_last().unwrap();
+            let mut gone = Vec::new();
+            {
+                let parent = node_at(&mut d.root, parent_path);
+                subtree_ids(&parent.children[*last], &mut gone);
+                parent.children.remove(*last);
+                // a parallel with one region left, or a compound state without children, becomes a plain state
+                let real = parent.children.iter().filter(|c| !c.kind.is_history()).count();
+                if parent.kind == Kind::Parallel && real < 2 {
+                    parent.kind = Kind::State;
+                }
+                if real == 0 {
+                    parent.children.clear();
+                    parent.initial = Initial::Default;
+                }
+            }
+            purge_refs(&mut d.root, &gone);
+            out.push(d);
+        }
+        let (nt, ne, nx) = {
+            let mut d = doc.clone();
+            let n = node_at(&mut d.root, p);
+            (n.trans.len(), n.onentry.len(), n.onexit.len())
+        };
+        for i in 0..nt {
+            let mut d = doc.clone();
+            let n = node_at(&mut d.root, p);
+            if n.kind.is_history() {
+                continue;
+            }
+            n.trans.remove(i);
+            out.push(d);
+        }
+        for i in 0..ne {
+            let mut d = doc.clone();
+            node_at(&mut d.root, p).onentry.remove(i);
+            out.push(d);
+        }
+        for i in 0..nx {
+            let mut d = doc.clone();
+            node_at(&mut d.root, p).onexit.remove(i);
+            out.push(d);
+        }
+        // single content items (never the first mark of a body and never a budget decrement)
+        let keep = |x: &Exec| matches!(x, Exec::Assign { loc, .. } if loc == "budget");
+        for i in 0..nt {
+            let len = doc_node(doc, p).trans[i].content.len();
+            for k in 1..len {
+                if keep(&doc_node(doc, p).trans[i].content[k]) {
+                    continue;
+                }
+                let mut d = doc.clone();
+                node_at(&mut d.root, p).trans[i].content.remove(k);
+                out.push(d);
+            }
+        }
+        for i in 0..ne {
+            let len = doc_node(doc, p).onentry[i].len();
+            for k in 1..len {
+                let mut d = doc.clone();
+                node_at(&mut d.root, p).onentry[i].remove(k);
+                out.push(d);
+            }
+        }
+        for i in 0..nx {
+            let len = doc_node(doc, p).onexit[i].len();
+            for k in 1..len {
+                let mut d = doc.clone();
+                node_at(&mut d.root, p).onexit[i].remove(k);
+                out.push(d);
+            }
+        }
+    }
+    out
+}
+
+fn doc_node<'a>(doc: &'a crate::gen::Doc, path: &[usize]) -> &'a crate::gen::Node {
+    let mut cur = &doc.root;
+    for i in path {
+        cur = &cur.children[*i];
+    }
+    cur
 }
